@@ -12,7 +12,7 @@
    implementation. *)
 From Coq Require Import Arith List Bool Permutation String.
 From Inkfem Require Import Model.Types Model.Dof Model.Sched Model.Regex Model.Read Spec.Unknowns
-  Proofs.DofProofs Proofs.SchedProofs Proofs.OrderProofs.
+  Proofs.DofProofs Proofs.SchedProofs Proofs.OrderProofs Gen.GenAssemble Proofs.AssembleShape.
 Import ListNotations.
 
 (* no run deadlocks: until every bar has been collected some step is enabled, for every number
@@ -50,3 +50,12 @@ Theorem C08_definitions_commute : forall (A : Type) (key : A -> string) (x y : A
   lookup_by key k (upsert key x (upsert key y l)) = lookup_by key k (upsert key y (upsert key x l)).
 Proof. exact @upsert_commutes. Qed.
 Print Assumptions C08_definitions_commute.
+
+(* scheduling has no part in the assembly: the translator (Gen/GenAssemble.v, regenerated on every run) finds
+   MakeSystemOfEquations, setEquationTerms, addTermsToStiffnessMatrix and addTermsToLoadVector to be plain loops over
+   the bars, slices and nodes in their stored order - no goroutine, channel or lock - which is what the model folds over *)
+Theorem C08_assembly_takes_the_bars_one_after_the_other :
+  asm_per_bar = [AsmBarStiffness; AsmBarLoads] /\ asm_after_bars = [AsmTrivialRows; AsmSupports] /\
+  asm_bars_one_after_the_other = true /\ asm_skips_negligible_terms = true.
+Proof. exact steps_as_written. Qed.
+Print Assumptions C08_assembly_takes_the_bars_one_after_the_other.
